@@ -15,8 +15,15 @@
 //! assume: intercepted forwards have outgoing_cltv_value >= HTLC_FAIL_BACK_BUFFER (they passed check_incoming_htlc_cltv); otherwise the u32 subtraction in the sweep underflows
 //! assume: cur_height <= 2^31-1 (block heights)
 //! assume: Logger callbacks do not panic (R3)
+//! trusted: assume_specification for core::cmp::max / core::cmp::min (std definitions): present in every unit so that a change that introduces them is verified instead of being rejected by the tool
 use vstd::prelude::*;
 verus! {
+use vstd::std_specs::cmp::*;
+use core::cmp;
+pub assume_specification<T: core::cmp::Ord>[core::cmp::max::<T>](a: T, b: T) -> (r: T)
+    ensures T::obeys_cmp_spec() ==> r == (if b.cmp_spec(&a) == core::cmp::Ordering::Less { a } else { b });
+pub assume_specification<T: core::cmp::Ord>[core::cmp::min::<T>](a: T, b: T) -> (r: T)
+    ensures T::obeys_cmp_spec() ==> r == (if b.cmp_spec(&a) == core::cmp::Ordering::Less { b } else { a });
 // std definition of Result::or_else (trusted)
 pub assume_specification<T, E, F, O: FnOnce(E) -> Result<T, F>>[core::result::Result::<T, E>::or_else](r: Result<T, E>, op: O) -> (o: Result<T, F>)
     requires r is Err ==> op.requires((r->Err_0,)),
